@@ -116,6 +116,7 @@ def Spec.api (sp : Spec) : Api → Spec × List SOut
     if sp.joined || !sp.up then (sp, [.raise_ .exception]) else ({ sp with goodbyeSent := false }, [])
   | .leave =>
     if sp.joined && !sp.goodbyeSent then ({ sp with goodbyeSent := true }, []) else (sp, [])
+  | .disconnect => (sp, [])
 
 def Spec.runCalls (sp : Spec) (self : Option FutId) : List HCall → Spec × List SOut
   | [] => (sp, [])
@@ -177,7 +178,8 @@ def Spec.msg (sp : Spec) (beh : List HAct) (m : InMsg) : Spec × List SOut :=
   if !sp.joined then
     match m with
     | .welcome _ => ({ sp with joined := true, seq := 0 }, [])     -- a new WAMP session: ids start at 1 again
-    | .abort | .challenge => (sp, [])
+    | .abort => Spec.failAll sp 2                                     -- the router refuses: what is pending fails
+    | .challenge => (sp, [])
     | _ => (sp, [.raise_ .protocolError])
   else
   match m with
@@ -243,7 +245,7 @@ def Spec.msg (sp : Spec) (beh : List HAct) (m : InMsg) : Spec × List SOut :=
     match (kindOfCode reqType).bind (fun k => sp.route k id) with
     | none => (sp, [.raise_ .protocolError])
     | some r => sp.finish id r (.error uri (p.args.getD []) (p.kwargs.getD []))
-  | .invocation _ reg _ =>
+  | .invocation _ reg _ _ =>
     if (alookup reg sp.regs).isNone then (sp, [.raise_ .protocolError]) else (sp, [])
   | .interrupt _ => (sp, [])
   | .welcome _ | .abort | .challenge | .other => (sp, [.raise_ .protocolError])
@@ -251,9 +253,10 @@ def Spec.msg (sp : Spec) (beh : List HAct) (m : InMsg) : Spec × List SOut :=
 def Spec.step (sp : Spec) : SEv → Spec × List SOut
   | .api a => let r := sp.api a; (r.1, r.2.filter observable)
   | .msg m beh => sp.msg beh m
-  | .pump => (sp, [])
-  | .open_ => ({ sp with up := true, goodbyeSent := false }, [])
-  | .closed => Spec.failAll { sp with up := false, joined := false } 1
+  | .pump | .tick => (sp, [])
+  | .open_ _ => ({ sp with up := true, goodbyeSent := false }, [])
+  | .closed _ => Spec.failAll { sp with up := false, joined := false } 1
+  | .fault _ | .resolve _ _ | .fail _ _ | .lateProgress _ _ => (sp, [])
 
 def Spec.run (sp : Spec) : List SEv → Spec × List (List SOut)
   | [] => (sp, [])
